@@ -574,7 +574,7 @@ def grammar_pool(rng, n_random, usize=True, names="plain", max_nt=4, max_t=4, ma
 
 def run_C04(rep, tier, rng):
     n = 800 if tier == "quick" else 8000
-    pool = grammar_pool(rng, n) + small_scope(60 if tier == "quick" else 1)
+    pool = grammar_pool(rng, n) + small_scope(20 if tier == "quick" else 1)
     texts = corpus("C04") + [t for _, _, t, _ in pool]
     pairs, dis = compare_stage_runs(rep, texts, "C04")
     nc = len(corpus("C04"))
@@ -592,13 +592,13 @@ def run_C04(rep, tier, rng):
             rep.violation(f"well-formed grammar file gave outcome {o}", {"label": label, "source": text, "impl": i[-400:]})
     report_disagreements(rep, dis, "stages (verdict, machine, table)", "C04_table_ok_iff_no_conflict / C04_sound_partial")
     return {"evaluations": len(pool), "distinct_nontrivial": kv.distinct_count([t for _, _, t, G in pool if len(G["rules"]) >= 2]),
-            "rule": "class-separating hand-written families (SLR⊂LALR⊂LR(1), ambiguous, ε in the middle, recursion mixes, unproductive/unreachable/variant-less) + structured generators (layered, nesting, sequence, wave, context, long productions, size grammars) + random grammars (1–4 nonterminals, 0–4 terminals, rhs ≤ 4) + the exhaustive small scope (every grammar with one nonterminal, two terminals, ≤ 2 alternatives of length ≤ 3, and with two nonterminals, ≤ 2 alternatives each of length ≤ 2: 54 000 grammars; all in the thorough tier, every 60th in the quick tier); verdict compared with conflict-freeness of the specification-side LALR(1) automaton (canonical LR(1) merged by core: a different algorithm); non-trivial = at least 2 rules",
+            "rule": "class-separating hand-written families (SLR⊂LALR⊂LR(1), ambiguous, ε in the middle, recursion mixes, unproductive/unreachable/variant-less) + structured generators (layered, nesting, sequence, wave, context, long productions, size grammars) + random grammars (1–4 nonterminals, 0–4 terminals, rhs ≤ 4) + the exhaustive small scope (every grammar with one nonterminal, two terminals, ≤ 2 alternatives of length ≤ 3, and with two nonterminals, ≤ 2 alternatives each of length ≤ 2: 54 000 grammars; all in the thorough tier, every 20th in the quick tier); verdict compared with conflict-freeness of the specification-side LALR(1) automaton (canonical LR(1) merged by core: a different algorithm); non-trivial = at least 2 rules",
             "samples": sample([t for _, _, t, _ in pool[16:]]), "verdicts": counts, "model_disagreements": len(dis)}
 
 
 def run_C11(rep, tier, rng):
     n = 800 if tier == "quick" else 8000
-    pool = grammar_pool(rng, n) + small_scope(120 if tier == "quick" else 6)
+    pool = grammar_pool(rng, n) + small_scope(40 if tier == "quick" else 6)
     texts = [t for _, _, t, _ in pool]
     pairs, dis = compare_stage_runs(rep, texts, "C11")
     seen = 0
@@ -650,7 +650,7 @@ def _strip_head(s):
 
 def run_C17(rep, tier, rng):
     n = 800 if tier == "quick" else 8000
-    pool = grammar_pool(rng, n) + small_scope(60 if tier == "quick" else 1)
+    pool = grammar_pool(rng, n) + small_scope(20 if tier == "quick" else 1)
     texts = [t for _, _, t, _ in pool]
     pairs, dis = compare_stage_runs(rep, texts, "C17")
     ok = 0
